@@ -9,7 +9,8 @@ Conventions.  `H : Bytes → Bytes` is the hash function, a *parameter* of every
 real code use SHA-1, `sha1_gives_20_bytes` shows SHA-1 meets the only hypothesis ever made about `H`: 20-byte
 digests).  `hmacCode H 64` is the HMAC *as QXmppUtils.cpp computes it* (since /repo commit a1928fd: keys longer than a
 block are hashed first), `hmacRfc H 64` is RFC 2104; `hmac_code_eq_rfc` shows they are the same function.  `decodeX` is
-`decode` together with what the decoder verified on the way: `miAt = some off` iff it met a MESSAGE-INTEGRITY
+the header check and attribute loop of `decode` together with what the decoder verified on the way (`decode` = `decodeX` plus
+the final gate of /repo commit 80bab8b: under a key, a Request/Response packet without MESSAGE-INTEGRITY is rejected): `miAt = some off` iff it met a MESSAGE-INTEGRITY
 attribute at body offset `off` (the C++ flag `after_integrity`), `fpAt = some off` iff it returned at a FINGERPRINT
 attribute at body offset `off`.  All statements hold for every message / packet / key of any length.
 
@@ -32,9 +33,7 @@ all numeric attributes, ICE role attributes, error code and phrase — with the 
 theorem stun_decode_encode (H : Bytes → Bytes) (hH : ∀ x, (H x).length = 20) (m : Msg) (h : WFMsg m)
     (k : Bytes) (fp : Bool) : decode H (encode H m k fp) k = some (view m) := by
   rw [encode_eq_raw_wf H hH m h k fp]
-  unfold decode
-  rw [decodeX_encode H hH m h k fp]
-  rfl
+  exact decodeStrict_encode H hH m h k fp
 
 /-- **decode ∘ encode = identity** when moreover every string of `m` is well-formed UTF-8 without a leading BOM (`StrsOK`;
 an embedded U+0000 is fine since /repo commit bdc4d1e, see the `example` below). -/
@@ -87,7 +86,7 @@ theorem stun_decode_encode_accepted (H : Bytes → Bytes) (hH : ∀ x, (H x).len
   rw [encode_eq_raw H hH m h.id k fp hfit]
   unfold decode
   rw [decodeX_encode_fields H hH m h k fp hfit]
-  rfl
+  by_cases hk : k = [] <;> simp [hk]
 
 /-- `encode` refuses (empty result) exactly the messages that do not fit the 16-bit length field -/
 theorem encode_refuses_exactly_oversized (H : Bytes → Bytes) (hH : ∀ x, (H x).length = 20) (m : Msg)
@@ -237,8 +236,8 @@ theorem tamper_verified_is_forgery (H : Bytes → Bytes) (hH : ∀ x, (H x).leng
      exact tamper_verified_is_forgery_aux H hH m h k hk fp i hi d off hdec hmi
 
 /-- **Every single-bit flip of the protected bytes or of MESSAGE-INTEGRITY is rejected by the authenticated decode**
-(`decodeAuth`: `decode` succeeded and MESSAGE-INTEGRITY was met — what ICE enforces since /repo commit f41aa68 and what
-`decode` itself would enforce with fixes/C14-bitflip-accepted.diff), for every well-formed message, non-empty key of any
+(`decodeAuth`: `decode` succeeded and MESSAGE-INTEGRITY was met — what ICE enforces since /repo commit f41aa68; for the
+classes Request and Response `decode` itself enforces it since 80bab8b, see `tamper_rejected`), for every well-formed message of any class, non-empty key of any
 length, fingerprint on or off and every bit position `i < 8·(20 + n + 24)`.  The only hypothesis is the cryptographic
 one, by name: the flipped packet is `NotAForgery` (it contains no valid MAC under the key for bytes other than those the
 sender authenticated). -/
@@ -281,16 +280,50 @@ theorem other_key_rejected_by_authenticated_decode (H : Bytes → Bytes) (b k' :
     | none => simp [hmi]
     | some off => exact absurd (decode_accepts_only_verified_mi H b k' d off hd hk' hmi).symm (hNV off)
 
-/-- **Defect (bit flips).**  "Flipping any bit of the protected bytes makes decoding fail" is false: there are a
-well-formed message, a key and a bit inside the bytes protected by MESSAGE-INTEGRITY (bit 5 of byte 23, the low byte of
-an empty USERNAME's length field, 0 → 32) such that the flipped packet is accepted under the same key, for every hash
-function.  The enlarged attribute swallows exactly MESSAGE-INTEGRITY and FINGERPRINT (its value still ends inside the
-body, so the bounds check of /repo commit df53ac0 passes), and nothing requires MESSAGE-INTEGRITY to be present when a
-key is given — so `decode_accepts_only_verified_mi` has nothing to say (`miAt = none`): plain `decode` accepts, the
-authenticated decode of the same packet rejects (`tamper_rejected_by_authenticated_decode`).  Callers that need
-authentication have to check for the attribute themselves (ICE does since /repo commit f41aa68).  Replayed on the implementation as
-`C14:bitflip-accepted`. -/
-theorem C14_defect_bitflip_accepted :
+/-! ### `decode` itself (since /repo commit 80bab8b it refuses a Request / Response packet without MESSAGE-INTEGRITY under a key) -/
+
+/-- **The tamper sentence of the property, for requests and success responses**: for every well-formed message whose class
+is Request or Response (`exemptClass m.type = false`), every non-empty key of any length, fingerprint on or off, and EVERY
+bit position of the header, the attributes and the MESSAGE-INTEGRITY attribute (`i < 8·(20 + n + 24)`), `decode` of the
+flipped packet under the same key fails.  Only hypothesis: the named cryptographic one, `NotAForgery`.  (Type bytes: the
+walk is unchanged, MESSAGE-INTEGRITY is reached and does not verify; length field: header check; elsewhere: a verified
+MESSAGE-INTEGRITY would be a forgery, and a packet without one is no longer accepted.) -/
+theorem tamper_rejected (H : Bytes → Bytes) (hH : ∀ x, (H x).length = 20) (m : Msg) (h : WFMsg m)
+    (k : Bytes) (hk : k ≠ []) (fp : Bool) (i : Nat)
+    (hi : i / 8 < Stun.headerSize + (body m).length + 24) (hcls : exemptClass m.type = false)
+    (hNF : NotAForgery H k (miInputAt (encode H m k fp) (body m).length) (flipBit (encode H m k fp) i)) :
+    decode H (flipBit (encode H m k fp) i) k = none := by
+  rw [encode_eq_raw_wf H hH m h k fp] at hNF ⊢
+  exact tamper_rejected_strict_aux H hH m h k hk fp i hi hcls hNF
+
+/-- flips behind MESSAGE-INTEGRITY (the FINGERPRINT bytes), any class: `decode` rejects or yields the same message; no hypothesis -/
+theorem tamper_behind_mi_keeps_message_decode (H : Bytes → Bytes) (hH : ∀ x, (H x).length = 20) (m : Msg) (h : WFMsg m)
+    (k : Bytes) (hk : k ≠ []) (i : Nat) (hi : Stun.headerSize + (body m).length + 24 ≤ i / 8) :
+    decode H (flipBit (encode H m k true) i) k = none ∨
+    decode H (flipBit (encode H m k true) i) k = some (view m) := by
+  rw [encode_eq_raw_wf H hH m h k true]
+  exact tamper_after_mi_strict_aux H hH m h k hk i hi
+
+/-- non-vacuity: the sample message is a Binding request (class Request), so `exemptClass` is false for it -/
+example : exemptClass exampleMsg.type = false := by decide
+
+/-- the old witness of `C14:bitflip-accepted` (Binding request, empty USERNAME, key `[1]`, bit 5 of byte 23) is rejected now, for
+every hash function under which the flipped packet is not a forgery -/
+example (H : Bytes → Bytes) (hH : ∀ x, (H x).length = 20)
+    (hNF : NotAForgery H [1] (miInputAt (encode H { type := 1, username := some [] } [1] true) 4)
+      (flipBit (encode H { type := 1, username := some [] } [1] true) 189)) :
+    decode H (flipBit (encode H { type := 1, username := some [] } [1] true) 189) [1] = none :=
+  tamper_rejected H hH { type := 1, username := some [] } ⟨by constructor <;> decide +kernel, by decide +kernel⟩ [1]
+    (by decide) true 189 (by decide) (by decide) hNF
+
+/-- **Defect (bit flips, classes Error and Indication).**  Without the class restriction `tamper_rejected` is false: for a
+Binding *indication* (empty USERNAME, key `[1]`, fingerprint) flipping bit 5 of byte 23 — the low byte of USERNAME's length
+field, 0 → 32 — gives a packet that `decode` accepts under the same key, for every hash function: the enlarged attribute
+swallows exactly MESSAGE-INTEGRITY and FINGERPRINT (its value still ends inside the body), and for the classes Error and
+Indication `decode` must accept a packet without MESSAGE-INTEGRITY (RFC 5389 §10.1.2/§10.2.2, RFC 5766 Data indications).
+The authenticated decode of the same packet rejects (`tamper_rejected_by_authenticated_decode`); ICE applies that gate.
+Replayed on the implementation as `C14:bitflip-accepted:error-or-indication`. -/
+theorem C14_defect_bitflip_accepted_error_or_indication :
     ¬ (∀ (H : Bytes → Bytes), (∀ x, (H x).length = 20) → ∀ (m : Msg), WFMsg m → StrsOK m → ∀ (k : Bytes), k ≠ [] →
         ∀ (fp : Bool) (i : Nat), i / 8 < Stun.headerSize + (body m).length →
           decode H (flipBit (encode H m k fp) i) k = none) := by
